@@ -17,6 +17,7 @@ CONSTANTS
   RunOnArbiterThread = TRUE
   StopBeforeCode = TRUE
   DeregOwnId = TRUE
+  RegBeforeReady = TRUE
   ExecuteOnce = TRUE
   SendFailsWhenGone = TRUE
   JoinWaitsExit = FALSE
